@@ -55,9 +55,22 @@ def poolCap (j : Json) : Json :=
               ("done", Json.num (JsonNumber.fromNat k)), ("peak2", Json.num (JsonNumber.fromNat max)),
               ("rules", Json.arr (((jArr j "init").map parsePRule).map pkruleJson).toArray)]
 
+/-- hot updates: the rule set installed after each update (version j = after the first j updates) -/
+def poolUpd (j : Json) : Json :=
+  let initRules := (jArr j "init").map parsePRule
+  let sp0 : SpecP := { rules := Spec.full initRules, cleared := false, model := (jInt j "model").toNat }
+  let names := initRules.map (·.name)
+  let table := fun (sp : SpecP) => Json.arr ((names.filterMap (fun n => sp.rules n)).map pkruleJson).toArray
+  let (_, vs) := (jArr j "ops").foldl (fun (acc : SpecP × List Json) oj =>
+    let (sp, vs) := acc
+    let sp1 := (Spec.step sp (parseMOp oj)).1
+    (sp1, vs ++ [table sp1])) (sp0, [table sp0])
+  Json.mkObj [("i", jObj j "i"), ("versions", Json.arr vs.toArray)]
+
 def poolCase (j : Json) : Json :=
   match jStr j "mode" with
   | "mgmt" => poolMgmt j
+  | "upd" => poolUpd j
   | _ => poolCap j
 
 end GV.Drv
